@@ -173,6 +173,25 @@ def run_case(case):
         at = found + len(want)
     if text.count('# MARK<') != len(carriers):
         out.append(('converter-count', len(carriers), text.count('# MARK<'), 'converter must run once per symbol that carries an equation'))
+    # 2a. ... and nothing but the converter's output: a converter may return an empty string (the statement contributes no code),
+    #      a falsy or whitespace-only string, or a bare comment. The evaluation body is then exactly the non-empty outputs.
+    for cname, conv in (('empty-for-first', lambda x: '' if (carriers and x is carriers[0]) else marker_converter(x)),
+                        ('empty-for-all', lambda x: ''),
+                        ('comment-only', lambda x: '# only a comment for %s' % x.name),
+                        ('empty-for-last', lambda x: '' if (carriers and x is carriers[-1]) else marker_converter(x))):
+        if not carriers:
+            break
+        try:
+            text_c = fsic.build_model_definition(symbols, converter=conv)
+        except Exception as e:
+            out.append(('converter-output:%s:%s' % (cname, type(e).__name__), 'builds', repr(e)[:160], 'a converter that returns an empty / comment-only string is not supported'))
+            continue
+        body = text_c.split('"""')[-1]
+        got_lines = [ln.strip() for ln in body.split('\n') if ln.strip()]
+        want_lines = [ln.strip() for x in carriers for ln in conv(x).split('\n') if ln.strip()]
+        got_lines = [ln for ln in got_lines if ln != 'pass']
+        if got_lines != want_lines:
+            out.append(('converter-output:%s' % cname, want_lines[:4], got_lines[:4], 'the evaluation body is not exactly what the converter returned'))
     if not carriers:
         M0 = fsic.build_model(symbols)
         m0 = M0(range(4))
